@@ -31,3 +31,32 @@ def scratch(prefix: str = "yawv_"):
         yield d
     finally:
         shutil.rmtree(d, ignore_errors=True)
+
+
+class quiet_fds:
+    """Silence file descriptors 1 and 2 for the duration (the library's progress display writes
+    to the sys.stderr object it saw at import time, which redirect_stderr cannot reach)."""
+
+    def __enter__(self):
+        import os
+        import sys
+
+        sys.stdout.flush()
+        sys.stderr.flush()
+        self._saved = (os.dup(1), os.dup(2))
+        self._null = os.open(os.devnull, os.O_WRONLY)
+        os.dup2(self._null, 1)
+        os.dup2(self._null, 2)
+        return self
+
+    def __exit__(self, *a):
+        import os
+        import sys
+
+        sys.stdout.flush()
+        sys.stderr.flush()
+        os.dup2(self._saved[0], 1)
+        os.dup2(self._saved[1], 2)
+        for fd in (*self._saved, self._null):
+            os.close(fd)
+        return None
